@@ -270,7 +270,8 @@ def judgeLine (s0 : JState) (line : String) : JState :=
     | ["r", "ld", _n, v, k] =>
       let s := stepEvent s
       let s := useLive s "loaded" line (jOid v)
-      if (k == "1") != (jOid v).isSome then s.flag s!"found-destructed load returned an object that is not live: {line}" else s
+      if v == "?" then s   -- the executing object was destructed meanwhile and could not name the result
+      else if (k == "1") != (jOid v).isSome then s.flag s!"found-destructed load returned an object that is not live: {line}" else s
     | ["r", "cl", _n, v] => useLive (stepEvent s) "cloned" line (jOid v)
     | ["r", "fo", _n, v, k] =>
       let s := stepEvent s
